@@ -62,6 +62,20 @@ pub fn run_plan<T: HCfg>(plan: &Value, detail: u8, emit: &mut dyn FnMut(&Value))
     let p_stats = pf(plan, "p_stats", 0.0);
     // sessions only call poll_remote_clients (never advance): C12's "merely poll" scenario
     let poll_only = pb(plan, "poll_only", false);
+    // C08: forged packets {"rate": p per tick, "kinds": [...], "payloads": [[bytes]...]}
+    let forge = plan.get("forge").cloned().unwrap_or(Value::Null);
+    let forge_rate = pf(&forge, "rate", 0.0);
+    let forge_kinds: Vec<String> = forge
+        .get("kinds")
+        .and_then(|v| v.as_array())
+        .map(|a| a.iter().map(|k| k.as_str().unwrap_or("").to_string()).collect())
+        .unwrap_or_default();
+    let forge_payloads: Vec<Value> = forge
+        .get("payloads")
+        .and_then(|v| v.as_array())
+        .cloned()
+        .unwrap_or_default();
+    let mut forge_n = 0u64;
     let settle_ms = pu(plan, "settle_ms", 0);
     // faults (loss, duplication, outages) stop at this time (ms after start); 0 = never.
     // After it the run continues for `after_ms` on a perfect network (C05's settle phase).
@@ -252,6 +266,19 @@ pub fn run_plan<T: HCfg>(plan: &Value, detail: u8, emit: &mut dyn FnMut(&Value))
                 }
             }
             let mut steps: Vec<Value> = Vec::new();
+            if forge_rate > 0.0 && !forge_kinds.is_empty() && npeers > 1 && rng.gen::<f64>() < forge_rate {
+                let mut from = rng.gen_range(0..npeers);
+                if from == p {
+                    from = (from + 1) % npeers;
+                }
+                let kind = forge_kinds[rng.gen_range(0..forge_kinds.len())].clone();
+                let mut st = json!({"a":"forge","from":from,"to":p,"kind":kind,"salt":rng.gen_range(0..100000u64)});
+                if kind == "badPayload" && !forge_payloads.is_empty() {
+                    st["payload"] = forge_payloads[(forge_n as usize) % forge_payloads.len()].clone();
+                }
+                forge_n += 1;
+                steps.push(st);
+            }
             if poll_only {
                 steps.push(json!({"a":"poll","p":p}));
             } else if !w.peers[p].is_spec {
